@@ -9,7 +9,7 @@ MODULES = K.mods("base", "Angle")
 REQUIRED = ["Angle.__init__", "Angle.set", "Angle.reduce_deg", "Angle.reduce_dms", "Angle.dms2deg", "Angle.deg2dms",
             "Angle.dms_tuple", "Angle.ra_tuple", "Angle.dms_str", "Angle.ra_str", "Angle.__call__",
             "Angle.__truediv__"]
-THEOREMS = ["C04_deg2dms_ideal", "C04_tuples_ideal", "C04_inverse_ideal", "C04_print_grid_b64", "C04_tuple_grid_b64"]
+THEOREMS = ["C04_deg2dms_ideal", "C04_tuples_ideal", "C04_inverse_ideal", "C04_print_grid_b64", "C04_tuple_grid_b64", "C04_deg2dms_b64"]
 PROOF_TIMEOUT = {"quick": 1500, "thorough": 3000}
 EXHAUSTIVE = False
 NSHARD = 16
@@ -40,7 +40,7 @@ EXPLANATION = ("deg2dms / dms_tuple / ra_tuple / dms2deg of the model regenerate
                "proved (DESIGN T3); the grid, the bit-exact string correspondence and the search oracle cover it.")
 CLAUSES = {
     "dms_tuple/deg2dms: integer degrees in [0,360), integer minutes in [0,60), 0<=seconds<60, sign +-1":
-        "proved [ideal, all real x in (-360,360)]; proved [B64, finite grid stated in C04_tuple_grid_b64]; all floats: unproved (searched)",
+        "proved [ideal, all real x in (-360,360)]; deg2dms: proved [B64, EVERY finite float: C04_deg2dms_b64 - degrees = floor|red360 x| in 0..359, minutes in 0..59, 0 <= seconds < 60 (60 (1-2^-53) rounds below 60.0, monotonicity of RN), sign +-1.0, exact formula of each field]; dms_tuple via the grid (C04_tuple_grid_b64) + searched",
     "ra_tuple: hours in [0,24), minutes, seconds, sign likewise":
         "proved [ideal, all real x in (-360,360)]; proved [B64, grid]; searched",
     "recombination sign*(d+m/60+s/3600) reproduces the value":
@@ -59,7 +59,7 @@ CLAUSES = {
 
 def proof_files(tier):
     return (["C04_defs.v"] + ["C04_shard_%02d.v" % k for k in range(NSHARD)]
-            + ["C04_grid.v", "C04_tac.v", "C04_ideal.v", "C04.v"])
+            + ["C04_grid.v", "C04_tac.v", "C04_ideal.v", "C04_reduce_b64.v", "C04_b64.v", "C04.v"])
 
 
 # ----------------------------------------------------------------------------------------------
